@@ -79,6 +79,12 @@ func engWriteSched(seed int64, tier string, _ []string, out *sx.Out) {
 		n = 1500
 	}
 	for i := 0; i < n; i++ {
+		if i%5 == 4 {
+			if !failedQueuedWrite(rng, out) {
+				break
+			}
+			continue
+		}
 		g := &gate{}
 		mqtt.VerifPointHook = g.hook
 		ver := []byte{4, 5}[i%2]
@@ -165,4 +171,86 @@ func engWriteSched(seed int64, tier string, _ []string, out *sx.Out) {
 			break // the schedule point is not being reached: one report is enough, do not wait 60 times
 		}
 	}
+}
+
+// failedQueuedWrite: a queued PUBLISH that the write loop cannot write (larger than the MQTT 5
+// subscriber's Maximum Packet Size) with packets queued before and behind it, then a request from
+// that subscriber.  The write loop is held at write.beforeLock with the first packet until the whole
+// burst is queued, so the refused packet is met with a non-empty queue behind it (the path through
+// flushIdle's "more writes are queued" return).  Whatever happens to the refused packet, the
+// request must be answered and the small packets must be on the wire at quiescence.  Emits one case
+// in the format of the `respond` engine; returns false when the schedule point is not reached.
+func failedQueuedWrite(rng *rand.Rand, out *sx.Out) bool {
+	g := &gate{}
+	mqtt.VerifPointHook = g.hook
+	defer func() { mqtt.VerifPointHook = nil }()
+	b := broker.New(broker.Opts{Auth: broker.AllowAuth, ACL: broker.AllowACL})
+	defer b.Shutdown()
+	cp := broker.ConnectPk("s", 5, true)
+	cp.Properties.MaximumPacketSize = 100
+	s := b.Connect("10.0.0.1:1", cp)
+	p := b.Connect("10.0.0.2:1", broker.ConnectPk("p", 4, true))
+	b.SendPacket(s, broker.SubscribePk(1, packets.Subscription{Filter: "t", Qos: 0}))
+	b.Drain()
+	before := 1 + rng.Intn(2)
+	behind := rng.Intn(3)
+	var burst []byte
+	add := func(payload []byte) {
+		e, _ := broker.Encode(broker.PublishPk("t", payload, 0, false, 0))
+		burst = append(burst, e...)
+	}
+	for k := 0; k < before; k++ {
+		add([]byte{byte('a' + k)})
+	}
+	add(make([]byte, 300)) // refused by the write loop: larger than the subscriber's maximum packet size
+	for k := 0; k < behind; k++ {
+		add([]byte{byte('m' + k)})
+	}
+	g.mu.Lock()
+	g.armed = true
+	g.mu.Unlock()
+	b.Feed(p, burst)
+	ok := waitFor(func() bool { return g.count() == 1 && p.Parked() })
+	g.disarm()
+	for j := 0; j < g.count(); j++ {
+		g.release(j)
+	}
+	var req packets.Packet
+	fl := sx.L{}
+	switch rng.Intn(3) {
+	case 0:
+		req = broker.PingPk()
+	case 1:
+		req = broker.SubscribePk(7, packets.Subscription{Filter: "x/y", Qos: 1})
+		fl = sx.L{sx.L{sx.N(1), sx.N(0), sx.N(1), sx.N(0)}}
+	default:
+		req = broker.PublishPk("other", []byte("q"), 1, false, 9)
+	}
+	req.ProtocolVersion = 5
+	if ok {
+		ok = waitFor(func() bool { return b.Srv.VerifQuiescent() })
+	}
+	b.SendPacket(s, req)
+	b.Quiesce()
+	outs := sx.L{}
+	closed := false
+	small := 0
+	for _, o := range b.Drain() {
+		if o.Conn == s.Idx {
+			for _, q := range o.Packets {
+				if q.FixedHeader.Type == packets.Publish {
+					small++
+				}
+				outs = append(outs, broker.PkSx(q))
+			}
+			closed = o.Closed
+		}
+	}
+	if !ok || b.Hung || (!closed && small != before+behind) {
+		closed = false
+		outs = sx.L{} // unrealised schedule, hang, or accepted packets stranded: reported as unanswered
+	}
+	out.Case(sx.L{sx.N(5), sx.N(2), sx.N(0), sx.N(1), sx.L{sx.N(0), sx.N(1024)}, sx.N(1), sx.L{}, fl,
+		broker.PkSx(req), outs, sx.Bool(closed)})
+	return ok
 }
